@@ -12,7 +12,11 @@ It joins
   (1) the API surface of the repository as it is NOW (`extract -api`: every top-level function and method of every
       non-test Go file, with size, reachability from the exported functions of the anchored files, source digest), with
   (2) coverage_map.json — the hand-written statement, per function, of HOW the framework covers it:
-      modelled | regenerated | parameter | exercised-only | not-covered
+      modelled | translated | regenerated | parameter | exercised-only | not-covered
+      (translated: the Lean definition is REGENERATED from the Go function by extract/translate*.go —
+      `translated` names the generated definition(s) `Ytk.Generated.Funcs.<fn>` / `Ytk.Generated.FuncsDom.<fn>`,
+      `equiv` the theorem(s) `<fn>_generated_eq_model` tying it to the hand-written counterpart named in `lean`;
+      a function that is both hand-modelled and translated counts as translated)
 and exits non-zero, listing them, when
   (a) a function of the source is missing from the map,
   (b) a map entry names a function that no longer exists,
@@ -38,7 +42,7 @@ LEAN = os.path.join(VERIF, "lean")
 MAP = os.path.join(VERIF, "coverage_map.json")
 INDEX = os.path.join(VERIF, "tools", "coverage_index.json")
 OUT = os.path.join(VERIF, "COVERAGE.md")
-STATUSES = ["modelled", "regenerated", "parameter", "exercised-only", "not-covered"]
+STATUSES = ["modelled", "translated", "regenerated", "parameter", "exercised-only", "not-covered"]
 
 
 # ---------------------------------------------------------------------------------------------------------------
@@ -336,17 +340,24 @@ class Index:
         return self.sort(res - set(self.direct(leans)))
 
 
+def model_defs(e):
+    """the Lean definitions of an entry whose theorems are looked up: the hand-written ones and, for a translated
+    function, the generated ones (their `_generated_eq_model` theorems mention them)"""
+    return list(e.get("lean", [])) + list(e.get("translated", []))
+
+
 def fill(api):
     idx = Index()
     m = load_map()
     for e in m["entries"]:
         new = {}
+        after = "lean" if "lean" in e else ("equiv" if "equiv" in e else None)
         for k, v in e.items():
             if k in ("theorems", "theorems_indirect"):
                 continue
             new[k] = v
-            if k == "lean":
-                new["theorems"] = idx.direct(v)
+            if k == after:
+                new["theorems"] = idx.direct(model_defs(e))
         e.clear()
         e.update(new)
     cur = {x["key"]: x["digest"] for x in api}
@@ -399,6 +410,11 @@ def main():
             problems["shape"].append("entry %d (%s): unknown status %r" % (i, e.get("fn"), e.get("status")))
         if e.get("status") == "modelled" and not e.get("lean"):
             problems["shape"].append("entry %d (%s): modelled without a Lean definition" % (i, e.get("fn")))
+        if e.get("status") == "translated" and not (e.get("translated") and e.get("equiv")):
+            problems["shape"].append("entry %d (%s): translated without a generated definition (`translated`) and an "
+                                     "equivalence theorem (`equiv`)" % (i, e.get("fn")))
+        if e.get("status") != "translated" and (e.get("translated") or e.get("equiv")):
+            problems["shape"].append("entry %d (%s): `translated` / `equiv` on an entry whose status is not translated" % (i, e.get("fn")))
         if e.get("status") == "regenerated" and not e.get("generated"):
             problems["shape"].append("entry %d (%s): regenerated without a Generated table" % (i, e.get("fn")))
         if e.get("status") == "parameter" and not e.get("contract"):
@@ -420,10 +436,20 @@ def main():
                 problems["c"].append("%s (definition, entry %s)" % (n, e["fn"][0]))
             elif decls[n][0] == "theorem":
                 problems["c"].append("%s is a theorem, listed as a definition (entry %s)" % (n, e["fn"][0]))
+        for n in e.get("translated", []):
+            if n not in decls or decls[n][0] == "theorem":
+                problems["c"].append("%s (generated definition, entry %s)" % (n, e["fn"][0]))
+            elif not decls[n][1].startswith(os.path.join("YtkModel", "Generated", "Funcs")):
+                problems["c"].append("%s is declared in %s, not in a generated Funcs*.lean (entry %s)" % (n, decls[n][1], e["fn"][0]))
+        for n in e.get("equiv", []):
+            if n not in decls or decls[n][0] != "theorem":
+                problems["c"].append("%s (equivalence theorem, entry %s)" % (n, e["fn"][0]))
+            elif "_generated_eq_model" not in n:
+                problems["c"].append("%s is not a `_generated_eq_model` theorem (entry %s)" % (n, e["fn"][0]))
         for n in e.get("theorems", []):
             if n not in decls or decls[n][0] != "theorem":
                 problems["c"].append("%s (theorem, entry %s)" % (n, e["fn"][0]))
-        if idx is not None and e.get("lean") and idx.direct(e["lean"]) != e.get("theorems", []):
+        if idx is not None and model_defs(e) and idx.direct(model_defs(e)) != e.get("theorems", []):
             outdated.append(e["fn"][0])
         for g in e.get("generated", []):
             f = g.split(":")[0].strip()
@@ -458,6 +484,10 @@ def main():
     w("* **modelled** — a hand-written Lean definition in `lean/YtkModel` mirrors it (same cases, same order); the property")
     w("  theorems listed speak about that definition; the harness kinds listed call the real function and compare. ")
     w("  `modelled (partly: …)` names what the mirror leaves out.")
+    w("* **translated** — the Lean definition is regenerated from the Go function itself on every run (`extract/translate*.go` →")
+    w("  `Generated/Funcs.lean`, `Generated/FuncsDom.lean`); the `…_generated_eq_model` theorem named proves, for all inputs, that it")
+    w("  equals the hand-written counterpart named (which the property theorems are about). A function that is both hand-modelled")
+    w("  and translated counts here.")
     w("* **regenerated** — no hand-written mirror; a fact extractor reads it from the source into a `Generated/*.lean` table on every run.")
     w("* **parameter** — behaviour of an external library / the OS; it enters the model as a parameter with the contract named (DESIGN section 7, item 5).")
     w("* **exercised-only** — the harness calls it (kinds listed) but nothing in the model corresponds to it.")
@@ -473,11 +503,11 @@ def main():
     ind_cache = {}
 
     def indirect_of(e):
-        if idx is None or not e.get("lean"):
+        if idx is None or not model_defs(e):
             return []
         k = id(e)
         if k not in ind_cache:
-            ind_cache[k] = idx.indirect(e["lean"])
+            ind_cache[k] = idx.indirect(model_defs(e))
         return ind_cache[k]
 
     def kinds(hs):
@@ -547,7 +577,8 @@ def main():
         w("| `%s` %s:%d | %d | %s | %s | %s |" % (x["pkg"] + "." + fn_label(x), x["file"], x["line"], x["stmts"], e["status"],
                                                  cell(kinds(e.get("harness", []))), cell(e.get("note", ""))))
     w("")
-    part = [x for x in api if x["anchored"] and entry_of.get(x["key"], {}).get("partly")]
+    part = [x for x in api if x["anchored"] and entry_of.get(x["key"], {}).get("partly")
+            and entry_of[x["key"]].get("status") == "modelled"]
     part.sort(key=lambda x: (-x["stmts"], x["key"]))
     if part:
         w("## Largest anchored functions modelled only partly")
@@ -581,9 +612,14 @@ def main():
                 continue
             st = e.get("status", "?")
             if e.get("partly"):
-                st += " (partly: %s)" % e["partly"]
+                st += (" (the hand-written counterpart partly: %s)" if st == "translated" else " (partly: %s)") % e["partly"]
             what = []
-            if e.get("lean"):
+            if e.get("translated"):
+                what.append("generated: " + ", ".join("`%s`" % short_thm(n) for n in e["translated"]) +
+                            " — equivalence: " + ", ".join("`%s`" % short_thm(n) for n in e.get("equiv", [])))
+                what.append("hand-written counterpart: " + (", ".join("`%s`" % short_thm(n) for n in e["lean"]) if e.get("lean")
+                                                            else "none (the theorem states the meaning over core functions)"))
+            elif e.get("lean"):
                 what.append(", ".join("`%s`" % short_thm(n) for n in e["lean"]))
             if e.get("generated"):
                 what.append("regenerated: " + "; ".join(e["generated"]))
